@@ -426,13 +426,22 @@ func (p *pool) monitor(done <-chan struct{}) {
 			}
 			var ms runtime.MemStats
 			runtime.ReadMemStats(&ms)
-			if ms.HeapAlloc > 40<<30 {
-				fmt.Fprintf(os.Stderr, "C17: heap above 40 GiB — runaway allocation; inputs in flight:\n")
+			if ms.HeapAlloc > 8<<30 {
+				// the live heap of a normal run is a few MB: some input makes a parser allocate
+				// without bound (an endless loop that builds something).  The goroutines cannot be
+				// stopped, so this process is replaced by a triage run that re-checks the inputs in
+				// flight one by one, each in a subprocess with a memory cap and a time limit.
+				var cand []string
 				for _, s := range slots {
 					s.mu.Lock()
-					fmt.Fprintf(os.Stderr, "  %s %s\n", s.whereStr(), quoteInput(s.cur))
+					if s.busy.Load() && !s.finished.Load() {
+						cand = append(cand, hex.EncodeToString(s.cur)+":"+strconv.Itoa(int(s.entries))+":"+s.unit)
+					}
 					s.mu.Unlock()
 				}
+				fmt.Fprintf(os.Stderr, "C17: heap above 8 GiB - runaway allocation; re-checking the %d inputs in flight one by one\n", len(cand))
+				env := append(os.Environ(), "VERIF_C17_TRIAGE="+strings.Join(cand, ","))
+				syscall.Exec(os.Args[0], os.Args, env)
 				os.Exit(2)
 			}
 		}
@@ -468,6 +477,10 @@ func runOne(hexInput string) {
 			defer pprof.StopCPUProfile()
 		}
 	}
+	// a reproduction of a suspected endless loop may allocate without bound: cap the address
+	// space, the Go runtime then ends the process with "out of memory"
+	lim := syscall.Rlimit{Cur: 8 << 30, Max: 8 << 30}
+	syscall.Setrlimit(syscall.RLIMIT_AS, &lim)
 	c := newChecker()
 	out := bufio.NewWriter(os.Stdout)
 	c.progress = func(entry, stage string) { fmt.Fprintf(out, "ENTRY %s/%s\n", entry, stage); out.Flush() }
@@ -503,6 +516,46 @@ func reproduce(h hang) (stuckEntry string, completed bool) {
 		}
 	}
 	return last, false
+}
+
+// triage: the main run was replaced because its heap grew without bound.  Every input that
+// was in flight is re-checked alone (three times, memory-capped, time-limited); one that
+// never completes is the finding.  The rest of the enumeration is not run: not exhaustive.
+func triage(r *ev.Run, list string) {
+	os.Unsetenv("VERIF_C17_TRIAGE")
+	r.NotExhaustive("the enumeration was abandoned when the heap grew beyond 8 GiB (runaway allocation); only the inputs in flight were re-checked")
+	found := false
+	for _, c := range strings.Split(list, ",") {
+		f := strings.SplitN(c, ":", 3)
+		if len(f) != 3 {
+			continue
+		}
+		in, _ := hex.DecodeString(f[0])
+		em, _ := strconv.Atoi(f[1])
+		h := hang{input: in, entries: entrySet(em), unit: f[2]}
+		stuck, where := 0, ""
+		for i := 0; i < reproRounds; i++ {
+			e, ok := reproduce(h)
+			if ok {
+				break // completes alone: not this one
+			}
+			if i == 0 {
+				where = e
+			}
+			if e == where {
+				stuck++
+			}
+		}
+		r.Eval(1)
+		if stuck == reproRounds {
+			found = true
+			r.Violate("hang/"+where, fmt.Sprintf("%s does not return on %s: alone, with 8 GiB of memory and %s, it neither completes nor stops allocating (reproduced %d times)", where, quoteInput(in), reproLimit, reproRounds),
+				map[string]any{"input_hex": f[0], "input": string(in), "where": where, "unit": f[2]})
+		}
+	}
+	if !found {
+		r.Violate("harness/runaway-allocation-not-attributed", "the run's heap grew beyond 8 GiB but none of the inputs in flight reproduces it alone", map[string]any{"inputs": list})
+	}
 }
 
 // ---------------------------------------------------------------------------
@@ -570,6 +623,10 @@ func Run(r *ev.Run) {
 		if a == "--replay" && i+1 < len(os.Args) {
 			os.Exit(replayFile(os.Args[i+1]))
 		}
+	}
+	if tri := os.Getenv("VERIF_C17_TRIAGE"); tri != "" {
+		triage(r, tri)
+		return
 	}
 	thorough := r.Thorough()
 	start := time.Now()
